@@ -350,5 +350,14 @@ func gen(f *hlib.Flags) []In {
 		}
 		ins = append(ins, genCase(r, scheme, r.Intn(6), r.Intn(6), noncanon, tag))
 	}
+	// the prover's answer with EMPTY proof bytes (a mock / optimistic prover): the stored copy still has to read back as an aggchain
+	// proof with its parameters. A separate random stream: the cases above are what they were.
+	r2 := hlib.NewRng(f.Seed ^ 0xc10e)
+	for k := 0; k < 2; k++ {
+		in := genCase(r2, "fep", 1+k, k, false, "empty-proof-bytes")
+		in.Prover.Proof = ""
+		in.Perts = genPerts(r2, in)
+		ins = append(ins, in)
+	}
 	return ins
 }
